@@ -877,7 +877,7 @@ func (t *fnTr) errExpr(e ast.Expr) string {
 						if d := ext[f.Sel.Name]; d != nil && d.Unsupported == "" && d.Result == "go_error" && !d.MayPanic {
 							if ftv, ok := t.u.info.Types[x.Fun]; ok {
 								if sig, ok := ftv.Type.(*types.Signature); ok {
-									return paren(app(d.CoqName, t.args(x, sig, nil)))
+									return paren(app(t.u.externQual[ipath]+d.CoqName, t.args(x, sig, nil)))
 								}
 							}
 						}
@@ -1386,7 +1386,7 @@ func (t *fnTr) externCall(pn *types.PkgName, f *ast.SelectorExpr, e *ast.CallExp
 		case d.NilParams:
 			return t.fail(e, "call of %s.%s, which has nil-tracked parameters", pn.Name(), f.Sel.Name)
 		}
-		s := app(d.CoqName, t.args(e, sig, nil))
+		s := app(t.u.externQual[pn.Imported().Path()]+d.CoqName, t.args(e, sig, nil))
 		if d.MayPanic {
 			return t.hoistOp(s)
 		}
